@@ -70,8 +70,9 @@ def pushdown_predicates(expression: E, dialect: DialectType = None) -> E:
                     parent = node.find_ancestor(exp.Join, exp.From)
                     if isinstance(parent, exp.Join):
                         if parent.side == "RIGHT":
+                            # keep looking: a later right join preserves its own source instead
                             selected_sources = {k: (node, source)}
-                            break
+                            continue
                         if isinstance(node, exp.Unnest) and unnest_requires_cross_join:
                             pushdown_allowed = False
                             break
